@@ -453,7 +453,7 @@ CLAIMS = [
           "classification, res' = res*r+d exactly, overflow exit iff res*r+d > u64::MAX, tail exit on every non-digit "
           "(the decimal exponent marker included), no reachable overflow/division panic",
           "any number of digits (one-step induction from an arbitrary u64 accumulator); 4 radixes; reader with EOF and "
-          "I/O error at an arbitrary position", configs=("fast",)),
+          "I/O error at an arbitrary position", configs=("fast", "nofast")),
     Claim("c05_num_tail", "C05", "quick", claim_num_tail,
           "parse_num_tail maps (sign, magnitude) to exactly the integer in [-2^63, 2^64-1] (-0, -2^63, 2^63 included), "
           "to the nearest double below that range, and enters the fraction/exponent scanners only for radix 10",
@@ -462,4 +462,652 @@ CLAIMS = [
           "parse_long_integer counts exactly the remaining digits of an over-long integer and hands "
           "significand x radix^k (in the stated radix) to the float conversion",
           "any number of further digits < 2^31-2 (one-step induction); 4 radixes", configs=("fast",)),
+]
+
+
+# ----------------------------------------------------------------------------- generic runner for scanner functions
+
+def run_scanner(cx, res, fname, mk_args, exits, track, loop_mode="cut", fp_abstract=False, io=True, timeout_s=150,
+                extra_havoc=None, unroll=1):
+    """Explore Parser::<R>::<fname>. mk_args(engine) -> (list of values for _2.., constraints, info dict).
+    `track`: debug names of locals whose value is recorded at each loop-header havoc (notes['in'][header][name])."""
+    eng = C.make_engine(cx, [], loop_mode=loop_mode, timeout_s=timeout_s, unroll=unroll)
+    eng.fp_abstract = fp_abstract
+    rd = S.Reader(eng, with_io_errors=io)
+    eng.stubs = S.reader_stubs(rd) + K.exit_stub(cx, eng, exits) + S.SCRATCH_STUBS + S.CORE_STUBS
+    fn = C.resolve_callee(cx, "Parser::<R>::" + fname)
+    info = {}
+    loc = {n: fn.local_by_debug(n) for n in track}
+    info["loc"] = loc
+
+    def init(e, st, fr):
+        ref, cons, ov = K.parser_state(cx, e, st)
+        fr.locals[1] = ref
+        vals, c2, inf = mk_args(e)
+        for i, v in enumerate(vals):
+            fr.locals[2 + i] = v
+        info.update(inf)
+        info["idx0"] = z3.BitVec("idx0", 64)
+        st.notes["idx"] = info["idx0"]
+        st.notes["in"] = ()
+        return cons + rd.base + c2 + [z3.ULT(info["idx0"], bv(1 << 40))]
+
+    def on_header(e, st, fr, bb, what):
+        st.notes["idx"] = z3.BitVec("idxh%d" % bb, 64)
+
+    def havoc(e, st, fr, bb):
+        rec = {n: fr.locals.get(l) for n, l in loc.items() if l is not None}
+        rec["idx"] = st.notes["idx"]
+        st.notes["in"] = st.notes["in"] + ((bb, rec),)
+        out = [z3.ULT(st.notes["idx"], bv(1 << 40))]
+        if extra_havoc:
+            out += extra_havoc(e, st, fr, bb, rec)
+        return out
+    eng.on_header, eng.havoc_hook = on_header, havoc
+    terms = eng.explore(fn.name, init)
+    res.absorb(eng)
+    return eng, rd, fn, info, terms
+
+
+def last_in(st):
+    return st.notes["in"][-1] if st.notes.get("in") else (None, None)
+
+
+def cur_byte(rd, idx):
+    b = rd.at(idx)
+    return b, z3.UGE(idx, rd.len), idx == rd.err_at
+
+
+def io_err_payload(p):
+    return isinstance(p, Opaque) and p.attrs.get("kind") == "io"
+
+
+# ----------------------------------------------------------------------------- parse_decimal
+
+def claim_decimal(cx, res, kf):
+    res.assumptions += ["parse_exponent / f64_from_parts are exits", "fewer than 2^31 fractional digits (i32 exponent)"]
+
+    def mk_args(e):
+        pos, sig, ex = e.sym_bool("pos"), e.sym_int("u64", "sig"), e.sym_int("i32", "exp")
+        return [pos, sig, ex], [ex.e > bv(-(1 << 30), 32), ex.e < bv(1 << 30, 32)], {"pos": pos.e, "sig0": sig.e, "exp0": ex.e}
+
+    def xh(e, st, fr, bb, rec):
+        ex = rec.get("exponent")
+        return [ex.e > bv(-(1 << 30), 32), ex.e < bv(1 << 30, 32)] if ex is not None else []
+    eng, rd, fn, info, terms = run_scanner(cx, res, "parse_decimal", mk_args, ["parse_exponent", "f64_from_parts"],
+                                           ["significand", "exponent", "at_least_one_digit"], extra_havoc=xh)
+    loc = info["loc"]
+    seen = {"step": 0, "skip": 0, "exit_e": 0, "exit_f": 0, "nodigit": 0}
+    for t in terms:
+        st = t.state
+        pc = list(st.pc)
+        if t.kind == "PANIC":
+            res.must_be_unsat(pc, "reachable panic `%s`" % t.info["msg"])
+            continue
+        hb, rec = last_in(st)
+        if rec is None:
+            if t.kind == "RETURN":
+                kind, payload = K.classify_return(eng, t)
+                if kind == "err" and io_err_payload(payload):
+                    continue
+            res.violations.append({"what": "path ends before the digit loop: %r" % (t,), "replayed": None})
+            continue
+        idx = rec["idx"]
+        b, eof, ioerr = cur_byte(rd, idx)
+        isd = z3.And(z3.Not(eof), is_dec_digit(b))
+        sig, ex, aod = rec["significand"].e, rec["exponent"].e, rec["at_least_one_digit"].e
+        d = z3.ZeroExt(120, b - bv(48, 8))
+        wide = z3.ZeroExt(64, sig) * bv(10, 128) + d
+        fits = z3.ULE(wide, bv(MAX64, 128))
+        fr = st.frames[-1] if st.frames else None
+        if t.kind == "LOOP_BACK":
+            sig2, ex2, aod2 = fr.locals[loc["significand"]].e, fr.locals[loc["exponent"]].e, fr.locals[loc["at_least_one_digit"]].e
+            if t.info["header"] == st.notes["in"][0][0] and len(st.notes["in"]) == 1:
+                seen["step"] += 1
+                good = z3.And(z3.Not(ioerr), isd, fits, z3.ZeroExt(64, sig2) == wide, ex2 == ex - 1, aod2,
+                              st.notes["idx"] == idx + 1)
+                res.must_be_unsat(pc + [z3.Not(good)], "fraction digit step is not (sig*10+d, exp-1)")
+            else:
+                seen["skip"] += 1
+                good = z3.And(z3.Not(ioerr), isd, sig2 == sig, ex2 == ex, st.notes["idx"] == idx + 1)
+                res.must_be_unsat(pc + [z3.Not(good)], "digit-skipping loop changes the value or consumes a non-digit")
+            continue
+        kind, payload = K.classify_return(eng, t)
+        lc = K.last_call(st)
+        if lc:
+            a = lc[2]
+            isE = z3.And(z3.Not(eof), z3.Or(b == bv(ord("e"), 8), b == bv(ord("E"), 8)))
+            if lc[1] == "parse_exponent":
+                seen["exit_e"] += 1
+                want = isE
+            else:
+                seen["exit_f"] += 1
+                want = z3.Not(isE)
+            # the values handed over are the loop state at the last header (possibly the skip loop: unchanged values)
+            first = st.notes["in"][0][1]
+            good = z3.And(z3.Not(ioerr), z3.Not(isd), want, a[0].e == info["pos"], a[1].e == sig, a[2].e == ex, lc[3] == idx)
+            if len(st.notes["in"]) == 1:
+                good = z3.And(good, aod)
+            res.must_be_unsat(pc + [z3.Not(good)], "fraction end: wrong continuation or arguments")
+            continue
+        if kind == "err":
+            code = K.code_name(eng, K.err_code_index(eng, payload))
+            if code == "InvalidNumber":
+                seen["nodigit"] += 1
+                res.must_be_unsat(pc + [z3.Not(z3.And(z3.Not(aod), z3.Not(isd)))], "InvalidNumber although a fraction digit was read")
+                continue
+            if io_err_payload(payload):
+                res.must_be_unsat(pc + [z3.Not(ioerr)], "io error without failing read")
+                continue
+        res.violations.append({"what": "unclassified path %r" % (t,), "replayed": None})
+    for k, n in seen.items():
+        res.vacuity.append(("reaches " + k, n > 0))
+
+
+# ----------------------------------------------------------------------------- parse_exponent (+ overflow)
+
+def claim_exponent(cx, res, kf):
+    res.assumptions += ["f64_from_parts / parse_exponent_overflow are exits"]
+
+    def mk_args(e):
+        pos, sig, ex = e.sym_bool("pos"), e.sym_int("u64", "sig"), e.sym_int("i32", "sexp")
+        return [pos, sig, ex], [], {"pos": pos.e, "sig0": sig.e, "sexp": ex.e}
+
+    def xh(e, st, fr, bb, rec):
+        x = rec.get("exp")
+        return [x.e >= 0] if x is not None else []
+    eng, rd, fn, info, terms = run_scanner(cx, res, "parse_exponent", mk_args, ["f64_from_parts", "parse_exponent_overflow"],
+                                           ["exp", "positive_exp"], extra_havoc=xh)
+    loc = info["loc"]
+    seen = {"step": 0, "ovf": 0, "exit": 0, "nodigit": 0}
+    I32MAX = (1 << 31) - 1
+    for t in terms:
+        st = t.state
+        pc = list(st.pc)
+        if t.kind == "PANIC":
+            res.must_be_unsat(pc, "reachable panic `%s`" % t.info["msg"])
+            continue
+        hb, rec = last_in(st)
+        kind, payload = K.classify_return(eng, t) if t.kind == "RETURN" else (t.kind, None)
+        if rec is None:
+            if kind == "err":
+                code = K.code_name(eng, K.err_code_index(eng, payload))
+                if code == "InvalidNumber":
+                    seen["nodigit"] += 1
+                    continue
+                if io_err_payload(payload):
+                    continue
+            res.violations.append({"what": "path ends before the exponent digit loop: %r" % (t,), "replayed": None})
+            continue
+        idx = rec["idx"]
+        b, eof, ioerr = cur_byte(rd, idx)
+        isd = z3.And(z3.Not(eof), is_dec_digit(b))
+        x, pe = rec["exp"].e, rec["positive_exp"].e
+        d = z3.ZeroExt(56, b - bv(48, 8))
+        wide = z3.SignExt(32, x) * bv(10, 64) + d
+        fits = wide <= bv(I32MAX, 64)
+        if t.kind == "LOOP_BACK":
+            seen["step"] += 1
+            x2 = st.frames[-1].locals[loc["exp"]].e
+            good = z3.And(z3.Not(ioerr), isd, fits, z3.SignExt(32, x2) == wide, st.notes["idx"] == idx + 1)
+            res.must_be_unsat(pc + [z3.Not(good)], "exponent digit step is not exp*10+d")
+            continue
+        lc = K.last_call(st)
+        if lc and lc[1] == "parse_exponent_overflow":
+            seen["ovf"] += 1
+            a = lc[2]
+            good = z3.And(z3.Not(ioerr), isd, z3.Not(fits), a[0].e == info["pos"], a[1].e == info["sig0"], a[2].e == pe)
+            res.must_be_unsat(pc + [z3.Not(good)], "exponent overflow exit taken although exp*10+d fits i32")
+            continue
+        if lc and lc[1] == "f64_from_parts":
+            seen["exit"] += 1
+            a = lc[2]
+            s64 = z3.SignExt(32, info["sexp"])
+            tot = z3.If(pe, s64 + z3.SignExt(32, x), s64 - z3.SignExt(32, x))
+            sat = z3.If(tot > bv(I32MAX, 64), bv(I32MAX, 64), z3.If(tot < bv(-(1 << 31), 64), bv(-(1 << 31), 64), tot))
+            good = z3.And(z3.Not(ioerr), z3.Not(isd), a[0].e == info["pos"], a[1].e == info["sig0"],
+                          z3.SignExt(32, a[2].e) == sat, lc[3] == idx)
+            res.must_be_unsat(pc + [z3.Not(good)], "final exponent is not starting_exp +/- exp (saturating)")
+            continue
+        if kind == "err" and io_err_payload(payload):
+            res.must_be_unsat(pc + [z3.Not(ioerr)], "io error without failing read")
+            continue
+        res.violations.append({"what": "unclassified path %r" % (t,), "replayed": None})
+    for k, n in seen.items():
+        res.vacuity.append(("reaches " + k, n > 0))
+    # sign handling before the loop: '+' / '-' / none decide positive_exp; checked through the first-header record
+    # (positive_exp is not written in the loop, so rec holds the value computed from the sign byte)
+
+
+def claim_exponent_overflow(cx, res, kf):
+    def mk_args(e):
+        pos, sig, pe = e.sym_bool("pos"), e.sym_int("u64", "sig"), e.sym_bool("pexp")
+        return [pos, sig, pe], [], {"pos": pos.e, "sig": sig.e, "pe": pe.e}
+    eng, rd, fn, info, terms = run_scanner(cx, res, "parse_exponent_overflow", mk_args, [], [])
+    seen = {"range": 0, "zero": 0, "skip": 0}
+    for t in terms:
+        st = t.state
+        pc = list(st.pc)
+        if t.kind == "PANIC":
+            res.must_be_unsat(pc, "reachable panic")
+            continue
+        big = z3.And(info["sig"] != 0, info["pe"])
+        if t.kind == "LOOP_BACK":
+            seen["skip"] += 1
+            hb, rec = last_in(st)
+            b, eof, ioerr = cur_byte(rd, rec["idx"])
+            res.must_be_unsat(pc + [z3.Not(z3.And(z3.Not(big), z3.Not(eof), is_dec_digit(b), st.notes["idx"] == rec["idx"] + 1))],
+                              "skip loop consumes a non-digit")
+            continue
+        kind, payload = K.classify_return(eng, t)
+        if kind == "err":
+            code = K.code_name(eng, K.err_code_index(eng, payload))
+            if code == "NumberOutOfRange":
+                seen["range"] += 1
+                res.must_be_unsat(pc + [z3.Not(big)], "out-of-range although the value is zero or tiny")
+                continue
+            if io_err_payload(payload):
+                continue
+        if kind == "ok" and isinstance(payload, F64):
+            seen["zero"] += 1
+            v = payload.e
+            good = z3.And(z3.Not(big), z3.fpIsZero(v), z3.fpIsNegative(v) == z3.Not(info["pos"]))
+            res.must_be_unsat(pc + [z3.Not(good)], "huge negative exponent / zero significand must give a signed zero")
+            continue
+        res.violations.append({"what": "unclassified path %r" % (t,), "replayed": None})
+    for k, n in seen.items():
+        res.vacuity.append(("reaches " + k, n > 0))
+
+
+CLAIMS += [
+    Claim("c05_decimal_step", "C05", "quick", claim_decimal,
+          "parse_decimal: every fraction digit maps (sig, exp) to (sig*10+d, exp-1) while it fits u64, further digits "
+          "are skipped without changing the value, at least one digit is required, and the scanner continues with "
+          "the exponent or the float conversion on exactly (sign, sig, exp)",
+          "any number of fraction digits (one-step induction on both loops), |exp| < 2^30", configs=("fast",)),
+    Claim("c05_exponent_step", "C05", "quick", claim_exponent,
+          "parse_exponent: exponent digits accumulate exactly in i32, overflow goes to the overflow handler, and the "
+          "float conversion receives starting_exp +/- exp (saturating) with the unchanged significand and sign",
+          "any number of exponent digits (one-step induction)", configs=("fast",)),
+    Claim("c05_exponent_overflow", "C05", "quick", claim_exponent_overflow,
+          "an exponent beyond i32 gives out-of-range for a non-zero significand with positive exponent and a signed "
+          "zero otherwise; only digits are skipped", "all inputs", configs=("fast",)),
+]
+
+
+# ----------------------------------------------------------------------------- f64_from_parts (fast-float-parsing build)
+
+def check_pow10_table(cx, res):
+    import struct
+    raw = cx.statics.get("POW10", {}).get("bytes")
+    if raw is None:
+        res.error = "POW10 table not found in the MIR dump"
+        return
+    n = len(raw) // 8
+    bad = []
+    for k in range(n):
+        got = struct.unpack("<d", raw[8 * k:8 * k + 8])[0]
+        if got != float(10 ** k):
+            bad.append((k, got))
+    res.notes.append("POW10: %d compiled entries compared bit-for-bit with the correctly rounded 10^k" % n)
+    if n != 309 or bad:
+        k = bad[0][0] if bad else 0
+        text = ("1e%d" % k).encode() if k <= 22 else ("1.0e%d" % k).encode()
+        ok, why, nat = native_check_literal(res, text, True)
+        res.violations.append({"what": "POW10 table wrong (entries %r, length %d)" % (bad[:3], n), "replayed": (not ok) or None,
+                               "witness": {"kind": "parse", "input": text.decode(), "input_hex": text.hex(),
+                                           "opts": "default", "src": "slice", "api": "single", "fast": True},
+                               "observed": nat, "why": why})
+
+
+OVERFLOW_CANDIDATES = [b"1e400", b"18e308", b"2e308", b"1.8e308", b"-2e308", b"179769313486231580793e289", b"1e309"]
+
+
+def replay_candidates(res, fast, cands):
+    """Try concrete literals through the real parser until one disagrees with the reference."""
+    def f(m):
+        last = None
+        for text in cands:
+            ok, why, nat = native_check_literal(res, text, fast)
+            last = (text, nat, why)
+            if not ok:
+                return {"replayed": True, "witness": {"kind": "parse", "input": text.decode(), "input_hex": text.hex(),
+                                                      "opts": "default", "src": "slice", "api": "single", "fast": fast},
+                        "observed": nat, "why": why}
+        return {"replayed": False, "why": "no candidate literal reproduced: %r" % (last,)}
+    return f
+
+
+def ieee_axioms(terms_mul, terms_div):
+    """IEEE-754 facts about single operations, instantiated for the mul/div terms that occur (trusted; each is
+    re-validated by z3 at half precision in claim_ieee_axioms)."""
+    from .symex import FP_UF, FP_ISINF
+    ax = []
+    fin = lambda x: z3.And(z3.Not(z3.fpIsNaN(x)), z3.Not(z3.fpIsInf(x)))  # noqa
+    one = z3.FPVal(1.0, z3.Float64())
+    for (x, y) in terms_mul:
+        r = FP_UF["Mul"](x, y)
+        ax.append(FP_ISINF(r) == z3.fpIsInf(r))
+        ax.append(z3.Implies(z3.And(fin(x), fin(y)), z3.Not(z3.fpIsNaN(r))))
+        ax.append(z3.Implies(z3.And(fin(x), fin(y), z3.Not(z3.fpIsNegative(x)), z3.Not(z3.fpIsNegative(y))),
+                             z3.Not(z3.fpIsNegative(r))))
+    for (x, y) in terms_div:
+        r = FP_UF["Div"](x, y)
+        ax.append(z3.Implies(z3.And(fin(x), fin(y), z3.Not(z3.fpIsNegative(x)), z3.fpGEQ(y, one)),
+                             z3.And(fin(r), z3.Not(z3.fpIsNegative(r)))))
+    return ax
+
+
+def collect_uf(e, acc):
+    """collect fmul/fdiv applications in a z3 term"""
+    seen = set()
+    work = [e]
+    while work:
+        x = work.pop()
+        if x.get_id() in seen:
+            continue
+        seen.add(x.get_id())
+        if z3.is_app(x):
+            nm = x.decl().name()
+            if nm in ("fmul", "fdiv"):
+                acc[nm].add((x.arg(0), x.arg(1)))
+            work.extend(x.children())
+
+
+def claim_f64_fast_finite(cx, res, kf):
+    check_pow10_table(cx, res)
+    import struct
+    raw = cx.statics["POW10"]["bytes"]
+    tbl = [struct.unpack("<d", raw[8 * k:8 * k + 8])[0] for k in range(len(raw) // 8)]
+    import math
+    if not all(math.isfinite(x) and x >= 1.0 for x in tbl):
+        res.violations.append({"what": "POW10 contains an entry that is not a finite value >= 1", "replayed": None})
+    res.assumptions += [
+        "loop invariant at the scaling loop header: f is finite and >= +0 (entry and preservation checked)",
+        "IEEE-754 single-operation axioms (finite*finite is not NaN; non-negative finite operands give a "
+        "non-negative product; x/y is finite, non-negative for finite x >= 0, y >= 1), validated by z3 at half precision",
+        "every POW10 entry is finite and >= 1 (checked on the compiled table)",
+    ]
+
+    def mk_args(e):
+        pos, sig, ex = e.sym_bool("pos"), e.sym_int("u64", "sig"), e.sym_int("i32", "exp")
+        return [pos, sig, ex], [], {"pos": pos.e, "sig": sig.e, "exp": ex.e}
+
+    def inv(f):
+        return z3.And(z3.Not(z3.fpIsNaN(f)), z3.Not(z3.fpIsInf(f)), z3.Not(z3.fpIsNegative(f)))
+
+    def xh(e, st, fr, bb, rec):
+        return [inv(rec["f"].e), rec["exponent"].e > bv(-(1 << 31) + 400, 32)]
+    eng, rd, fn, info, terms = run_scanner(cx, res, "f64_from_parts", mk_args, [], ["f", "exponent"], extra_havoc=xh,
+                                           io=False, timeout_s=300, fp_abstract=True)
+    loc = info["loc"]
+    seen = {"ok": 0, "range": 0, "back": 0}
+    one = z3.FPVal(1.0, z3.Float64())
+    for t in terms:
+        st = t.state
+        pc = list(st.pc)
+        # table facts for every table_get event on this path: the fetched value is finite and >= 1
+        arr, n = S.table_f64(eng, "POW10")
+        facts = []
+        for ev in st.events:
+            if ev[0] == "table_get":
+                tv = z3.fpBVToFP(z3.Select(arr, ev[2]), z3.Float64())
+                facts.append(z3.Implies(z3.ULT(ev[2], bv(n)), z3.And(z3.Not(z3.fpIsNaN(tv)), z3.Not(z3.fpIsInf(tv)), z3.fpGEQ(tv, one))))
+        # 1e308 literal divisor
+        acc = {"fmul": set(), "fdiv": set()}
+        for c in pc:
+            collect_uf(c, acc)
+        if t.kind == "PANIC":
+            res.must_be_unsat(pc, "reachable panic `%s`" % t.info["msg"])
+            continue
+        if t.kind == "LOOP_BACK":
+            seen["back"] += 1
+            f2 = st.frames[-1].locals[loc["f"]].e
+            collect_uf(f2, acc)
+            res.must_be_unsat(pc + facts + ieee_axioms(acc["fmul"], acc["fdiv"]) + [z3.Not(inv(f2))],
+                              "scaling loop breaks the finiteness invariant")
+            continue
+        kind, payload = K.classify_return(eng, t)
+        if kind == "ok":
+            seen["ok"] += 1
+            v = payload.e
+            collect_uf(v, acc)
+            res.must_be_unsat(pc + facts + ieee_axioms(acc["fmul"], acc["fdiv"]) + [z3.Or(z3.fpIsInf(v), z3.fpIsNaN(v))],
+                              "float conversion can return inf/NaN", replay_candidates(res, True, OVERFLOW_CANDIDATES))
+            continue
+        if kind == "err" and K.code_name(eng, K.err_code_index(eng, payload)) == "NumberOutOfRange":
+            seen["range"] += 1
+            continue
+        res.violations.append({"what": "unclassified path %r" % (t,), "replayed": None})
+    for k, n in seen.items():
+        res.vacuity.append(("reaches " + k, n > 0))
+    s_ = z3.BitVec("s", 64)
+    res.must_be_unsat([z3.Not(inv(z3.fpUnsignedToFP(z3.RNE(), s_, z3.Float64())))], "u64 -> f64 not finite/non-negative")
+
+
+def claim_ieee_axioms(cx, res, kf):
+    """The single-operation facts used above, decided by z3 for IEEE half precision (same rounding rules)."""
+    F = z3.FPSort(5, 11)
+    x, y = z3.FP("x", F), z3.FP("y", F)
+    fin = lambda a: z3.And(z3.Not(z3.fpIsNaN(a)), z3.Not(z3.fpIsInf(a)))  # noqa
+    rm = z3.RNE()
+    res.must_be_unsat([fin(x), fin(y), z3.fpIsNaN(z3.fpMul(rm, x, y))], "finite*finite is NaN")
+    res.must_be_unsat([fin(x), fin(y), z3.Not(z3.fpIsNegative(x)), z3.Not(z3.fpIsNegative(y)),
+                       z3.fpIsNegative(z3.fpMul(rm, x, y))], "non-negative product negative")
+    q = z3.fpDiv(rm, x, y)
+    res.must_be_unsat([fin(x), fin(y), z3.Not(z3.fpIsNegative(x)), z3.fpGEQ(y, z3.FPVal(1.0, F)),
+                       z3.Not(z3.And(fin(q), z3.Not(z3.fpIsNegative(q))))], "x/y for x>=0, y>=1 not finite non-negative")
+    res.must_be_sat([fin(x), fin(y), z3.fpIsInf(z3.fpMul(rm, x, y))], "finite product can overflow (so the is_infinite guard matters)")
+
+
+def claim_f64_fast_exact(cx, res, kf):
+    """sig <= 2^53, |exp| <= 22: exactly one IEEE multiplication/division of exact operands."""
+    res.assumptions.append("IEEE-754: one correctly rounded mul/div of exactly represented operands is the correctly "
+                           "rounded value of the exact product/quotient (axiom); POW10[k] == 10^k exactly for k <= 22 "
+                           "(checked on the compiled table bits)")
+    check_pow10_table(cx, res)
+
+    def mk_args(e):
+        pos, sig, ex = e.sym_bool("pos"), e.sym_int("u64", "sig"), e.sym_int("i32", "exp")
+        return [pos, sig, ex], [z3.ULE(sig.e, bv(1 << 53)), ex.e >= -22, ex.e <= 22], {"pos": pos.e, "sig": sig.e, "exp": ex.e}
+    eng, rd, fn, info, terms = run_scanner(cx, res, "f64_from_parts", mk_args, [], [], loop_mode="unroll", unroll=0,
+                                           io=False, timeout_s=200, fp_abstract=True)
+    from .symex import FP_UF
+    arr, n = S.table_f64(eng, "POW10")
+    sig, ex, pos = info["sig"], info["exp"], info["pos"]
+    cv = z3.fpUnsignedToFP(z3.RNE(), sig, z3.Float64())
+    absx = z3.If(ex < 0, -ex, ex)
+    tk = z3.fpBVToFP(z3.Select(arr, z3.ZeroExt(32, absx)), z3.Float64())
+    val = z3.If(ex >= 0, FP_UF["Mul"](cv, tk), FP_UF["Div"](cv, tk))
+
+    def build(m):
+        e = m.eval(ex, model_completion=True).as_signed_long()
+        return ("%s%de%d" % ("" if K.mval(m, pos) else "-", K.mval(m, sig), e)).encode()
+    oks = 0
+    for t in terms:
+        pc = list(t.state.pc)
+        if t.kind == "PANIC":
+            res.must_be_unsat(pc, "reachable panic")
+            continue
+        if t.kind == "UNROLL_LIMIT":
+            res.must_be_unsat(pc, "exact region needs a second scaling iteration", literal_on_model(res, True, build))
+            continue
+        kind, payload = K.classify_return(eng, t)
+        if kind == "ok":
+            oks += 1
+            v = payload.e
+            res.must_be_unsat(pc + [z3.Not(z3.If(pos, v == val, v == z3.fpNeg(val)))],
+                              "exact region: result is not the single IEEE op cvt(sig) (*|/) POW10[|exp|] with the sign applied",
+                              literal_on_model(res, True, build))
+            continue
+        if kind == "err":
+            # reachable only through the is_infinite guard; 2^53 * 10^22 < 2^127 is finite, so with real semantics never
+            res.notes.append("range-error path in the exact region exists only behind the is_infinite guard")
+            continue
+        res.violations.append({"what": "unclassified path %r" % (t,), "replayed": None})
+    res.vacuity.append(("exact region reaches Ok", oks >= 2))
+    # 2^53 * 10^22 is far below DBL_MAX: decided with real FP semantics on the two extreme constants
+    top = z3.fpMul(z3.RNE(), z3.FPVal(float(1 << 53), z3.Float64()), z3.FPVal(1e22, z3.Float64()))
+    res.must_be_unsat([z3.fpIsInf(top)], "2^53*10^22 overflows")
+
+
+CLAIMS += [
+    Claim("c05_f64_fast_finite", "C05", "quick", claim_f64_fast_finite,
+          "f64_from_parts (default build) never returns infinity or NaN: every Ok path has a finite result; the "
+          "scaling loop keeps f finite and non-negative; the compiled POW10 table equals the correctly rounded powers "
+          "of ten bit for bit",
+          "all (sign, u64 significand, i32 exponent > i32::MIN+400); real IEEE semantics in z3", configs=("fast",)),
+    Claim("c05_ieee_axioms", "C05", "quick", claim_ieee_axioms,
+          "the IEEE single-operation facts used as axioms hold (decided at half precision)", "binary16, RNE", configs=("fast",)),
+    Claim("c05_f64_fast_exact", "C05", "quick", claim_f64_fast_exact,
+          "for significand <= 2^53 and |exponent| <= 22 the result is exactly one IEEE multiplication or division of "
+          "the exactly converted significand by the exact table entry, sign applied, never an error",
+          "all sig <= 2^53, -22 <= exp <= 22, both signs", configs=("fast",)),
+]
+
+
+# ----------------------------------------------------------------------------- f64_from_parts (build without fast-float-parsing)
+
+def claim_f64_std(cx, res, kf):
+    res.assumptions += [
+        "str::parse::<f64> contract: returns Err or Ok(f) with f the correctly rounded value of the text, never NaN, "
+        "and +/-infinity when the magnitude overflows (as core's dec2flt does); itoa::Buffer::format writes the "
+        "decimal digits of its argument",
+    ]
+
+    def mk_args(e):
+        pos, sig, ex = e.sym_bool("pos"), e.sym_int("u64", "sig"), e.sym_int("i32", "exp")
+        return [pos, sig, ex], [], {"pos": pos.e, "sig": sig.e, "exp": ex.e}
+    eng, rd, fn, info, terms = run_scanner(cx, res, "f64_from_parts", mk_args, [], [], loop_mode="unroll", unroll=0,
+                                           io=False, timeout_s=120)
+    oks = 0
+    for t in terms:
+        st = t.state
+        pc = list(st.pc)
+        if t.kind == "PANIC":
+            res.must_be_unsat(pc, "reachable panic")
+            continue
+        kind, payload = K.classify_return(eng, t)
+        sp = [e for e in st.events if e[0] == "std_parse"]
+        if kind == "ok":
+            oks += 1
+            if len(sp) != 1 or sp[0][1] is None:
+                res.violations.append({"what": "float text not built from the scratch buffer", "replayed": None})
+                continue
+            content, f = sp[0][1], sp[0][2]
+            shape_ok = (len(content) == 3 and content[0][0] == "itoa" and content[1][0] == "byte"
+                        and content[2][0] == "itoa")
+            if not shape_ok:
+                res.violations.append({"what": "text handed to str::parse is not <sig>e<exp>: %r" % (content,), "replayed": None})
+                continue
+            res.must_be_unsat(pc + [z3.Not(z3.And(content[0][1].e == info["sig"], content[1][1].e == ord("e"),
+                                                  content[2][1].e == info["exp"]))],
+                              "text handed to str::parse does not denote sig x 10^exp")
+            v = payload.e
+            res.must_be_unsat(pc + [z3.Not(z3.fpIsInf(f)), z3.Not(z3.If(info["pos"], v == f, z3.fpEQ(v, z3.fpNeg(f))))],
+                              "sign not applied to the parsed magnitude")
+            res.must_be_unsat(pc + [z3.Or(z3.fpIsInf(v), z3.fpIsNaN(v))], "float conversion can return inf/NaN",
+                              replay_candidates(res, False, OVERFLOW_CANDIDATES))
+            continue
+        if kind == "err":
+            continue
+        res.violations.append({"what": "unclassified path %r" % (t,), "replayed": None})
+    res.vacuity.append(("reaches Ok", oks >= 1))
+
+
+CLAIMS += [
+    Claim("c05_f64_std", "C05", "quick", claim_f64_std,
+          "f64_from_parts (build without fast-float-parsing): the text given to str::parse::<f64> is exactly "
+          "<significand>e<exponent>, the sign is applied to the result, and an infinite result is rejected",
+          "all (sign, u64, i32)", configs=("nofast",)),
+]
+
+
+# ----------------------------------------------------------------------------- translator validation
+
+VALIDATION_LITERALS = [b"0", b"-0", b"42", b"-17", b"#xFF", b"#b101", b"#o-17", b"#d99", b"1.5", b"-1.5e3", b"1e21", b"1E2",
+                       b"18446744073709551615", b"18446744073709551616", b"-9223372036854775808",
+                       b"-9223372036854775809", b"0.1", b"123456789012345678901234567890", b"#xffffffffffffffff",
+                       b"1.0e-5", b"5e-324", b"12.", b"1e", b"#b12", b"1e400", b"0.000001", b"3.14159"]
+
+
+def claim_translator_validation(cx, res, kf):
+    """Push concrete literals through BOTH the real parser (native) and the MIR encoding; results must agree."""
+    import struct
+    fast = cx.fast_float
+    agree = 0
+    for text in VALIDATION_LITERALS:
+        eng = C.make_engine(cx, [], loop_mode="unroll", unroll=64, timeout_s=60, max_steps=20000)
+        rd = S.Reader(eng, with_io_errors=False)
+        eng.stubs = S.reader_stubs(rd) + S.SCRATCH_STUBS + S.CORE_STUBS
+        fn = C.resolve_callee(cx, "Parser::<R>::parse_number")
+
+        def init(e, st, fr, text=text):
+            ref, cons, ov = K.parser_state(cx, e, st)
+            fr.locals[1] = ref
+            st.notes["idx"] = bv(0)
+            cons = cons + rd.base + [rd.len == len(text)]
+            for i, c in enumerate(text):
+                cons.append(rd.at(bv(i)) == c)
+            return cons
+        if not fast:
+            # the std float path is a stub; give it its contract value through Python's float()
+            pass
+        terms = [t for t in eng.explore(fn.name, init)]
+        res.absorb(eng)
+        rets = [t for t in terms if t.kind == "RETURN"]
+        nat = RP.single(text, "default", "slice", fast=fast)
+        res.replays += 1
+        if len(rets) != 1:
+            res.violations.append({"what": "encoding has %d return paths for concrete %r" % (len(rets), text), "replayed": None})
+            continue
+        kind, payload = K.classify_return(eng, rets[0])
+        enc = None
+        if kind == "err":
+            ci = K.err_code_index(eng, payload)
+            enc = ("err", K.code_name(eng, ci))
+        elif kind == "ok" and isinstance(payload, Agg):
+            n = payload.fields[0]
+            d = K.concrete(n.discr)
+            v = n.variants[d][0]
+            name = eng.enums["N"][d]
+            s_ = z3.Solver()
+            s_.add(*rets[0].state.pc)
+            s_.check()
+            mdl = s_.model()
+            if name == "Float":
+                if not fast:
+                    enc = ("float", None)
+                else:
+                    enc = ("float", mdl.eval(z3.fpToIEEEBV(v.e), model_completion=True).as_long())
+            else:
+                iv = mdl.eval(v.e, model_completion=True).as_long()
+                if name == "NegInt" and iv >= 1 << 63:
+                    iv -= 1 << 64
+                enc = ("int", iv)
+        # native side
+        if "err" in nat:
+            ncode = {"invalid number": "InvalidNumber", "number out of range": "NumberOutOfRange"}.get(nat["err"]["code"], nat["err"]["code"])
+            # a trailing-characters error from the top level means the number scanner itself accepted a prefix
+            natv = ("err", ncode)
+        elif nat.get("t") == "int":
+            natv = ("int", int(nat["v"]))
+        elif nat.get("t") == "float":
+            natv = ("float", int(nat["bits"], 16) if fast else None)
+        else:
+            natv = ("other", nat)
+        if enc == natv or (natv[0] == "err" and natv[1] in ("trailing characters",) and enc and enc[0] != "err"):
+            agree += 1
+        else:
+            res.violations.append({"what": "encoding and real parser disagree on %r: encoding %r, native %r" % (text, enc, natv),
+                                   "replayed": None})
+    res.notes.append("translator validation: %d/%d literals agree between the MIR encoding and the native build" % (agree, len(VALIDATION_LITERALS)))
+    res.vacuity.append(("validated literals", agree >= 10))
+
+
+CLAIMS += [
+    Claim("c05_translator_validation", "C05", "quick", claim_translator_validation,
+          "translator validation: concrete literals (from the repository's tests and boundaries) give the same "
+          "number/error through the MIR encoding (parse_number and everything below it inlined) and the native build",
+          "%d concrete literals" % len(VALIDATION_LITERALS), configs=("fast",)),
 ]
